@@ -35,7 +35,11 @@ ASSUMPTIONS = ["SimFS resolves paths component-wise like a POSIX kernel and has 
                "every minimised violation is re-run once against the real file system in a deep scratch directory"]
 
 SEGS_BAD = ["..", ".", "", "~", "b x", "c\\d", "\x01z", "CON", "é", "x" * 260, "..", "...", " ", "a.", "-rf",
-            "\u2025", "\uff0e\uff0e", "\u2024\u2024", "a\uff0fb", "\uff0e", "\u2025\uff0f\u2025"]   # look-alikes of '..', '.', '/' (NFKC)
+            "\u2025", "\uff0e\uff0e", "\u2024\u2024", "a\uff0fb", "\uff0e", "\u2025\uff0f\u2025",   # look-alikes of '..', '.', '/' (NFKC)
+            # segments that pass an exact-match filter for '..' but BECOME '..' under a later clean-up step:
+            # control characters removed, cut at '$', white space stripped, percent / back-slash decoding, case folding
+            ".\x01.", "\x1f..", "..\x00", ".\x7f.", "..$Inner", "..$1", ".$x", " ..", ".. ", "..\t", "%2e%2e", "..\\..",
+            "..\x00abc", "..;", ". .", "..\r"]
 SEGS_OK = ["a", "b", "pkg", "Cls", "q"]
 METH_BAD = ["../x", "a/../../x", "x/../../../../esc", "/abs", "..", "a/b", "CON", "m" * 300, "x\\..\\y", "a\x00b", ".", ""]
 METH_OK = ["m", "run", "<init>", "get"]
@@ -77,6 +81,8 @@ def draw_case(seed):
                 segs = [".."] + [r.choice([base + "-old", base + "put", base])] + segs[:2]
             if segs.count("..") > 8:
                 segs = segs[:8]
+            if style < 0.8 and r.random() < 0.06:
+                segs = [r.choice(["..", ".", ""]) for _ in range(r.randint(1, 4))]       # nothing but segments a filter drops
             d = "L" + ("/" if r.random() < 0.08 else "") + "/".join(segs) + (";" if r.random() < 0.93 else "")
             if d in used or d in ("L;", "L"):
                 d = "Lu%d/%s;" % (len(used), "/".join(segs))
